@@ -100,9 +100,14 @@ failed:
 				msg.sess.queueOut(ErrLockedReply(msg, timestamp))
 			}
 		}
-		if len(t.exit) > 0 {
+		if t.isDeleted() || len(t.exit) > 0 {
+			// Whoever marks a topic deleted also sends it a termination request, which may not have
+			// arrived yet: wait for it, it must not stay unconsumed. Only the requests which stop the
+			// topics of a deleted user wait for completion to be reported.
 			msg := <-t.exit
-			msg.done <- true
+			if msg.done != nil {
+				msg.done <- true
+			}
 		}
 
 		return
